@@ -108,7 +108,7 @@ Theorem C03_debit_needs_authority_withdraw_reward : forall known cur signer rpoo
 Proof. exact withdraw_reward_authority. Qed.
 Print Assumptions C03_debit_needs_authority_withdraw_reward.
 
-(* PROPOSAL_WITHDRAW_FUNDS is FULL since /repo 7960770.  The former refutation witness (finding C03.withdraw_funds_negative,
+(* PROPOSAL_WITHDRAW_FUNDS is FULL since /repo 19a3caa.  The former refutation witness (finding C03.withdraw_funds_negative,
    fixed): funder 1 signs, beneficiary 2 is named, amount -5 - rejected now, the beneficiary keeps its holdings *)
 Definition l_w : gmap key Z := ladd (ladd ∅ (bal 1 0) 1000) (bal 2 0) 30.
 Example C03_former_witness_proposal_withdraw_rejected :
